@@ -14,7 +14,7 @@
    document served there describes each of them; no SCPD URL is the description URL. *)
 From Coq Require Import List Bool NArith ZArith Permutation.
 From AUC Require Import Prelude.PyStr C08.TypesDef C08.Model Gen.Types
-  C05.Xml C05.Names C05.Model C05.Def C05.Spec C05.Lemmas C05.Parse C05.Expected C05.Main C05.Witness.
+  C05.Xml C05.Names C05.Model C05.Def C05.Spec C05.Lemmas C05.Parse C05.Expected C05.Main C05.Witness C05.Collapse.
 Import ListNotations.
 
 (* Sentence 1, at the strength the code has (known findings D32, D33 excluded by their guards): for
@@ -106,6 +106,68 @@ Theorem C05_clause_mirrors_partial :
 Proof. exact c_mirrors_partial. Qed.
 Print Assumptions C05_clause_mirrors_partial.
 
+(* The known findings D32 / D33 identified by their OUTCOME, without the guards: on EVERY description of the domain -
+   same-type sibling devices / services allowed - the model's object graph is the mirror of the COLLAPSED description
+   (Spec.collapse: `embedded_devices` / `services` taken as what they are, dicts keyed by type: the first occurrence
+   of a type keeps its place, the last sibling of the type stays).  The run is the run on the description's own
+   documents and server: the SCPD of a service that the collapse drops is still fetched.  Hence the one hypothesis
+   beyond the domain, which only speaks about strict mode: if some service document is corrupted, then one of a
+   service that SURVIVES the collapse is (otherwise strict creation is refused because of a dropped service's
+   document - clause 2 holds, C05_clause_strict_refuses - while the collapsed description has no corrupted service:
+   C05_collapsed_hypothesis_needed).  In non-strict mode, and whenever no service document is corrupted, the
+   hypothesis is void.  C05_clause_mirrors_partial is the special case collapse d = d (C05_collapse_normal_form). *)
+Theorem C05_mirrors_collapsed :
+  forall (urljoin : pystr -> pystr -> pystr) (float_of_str : pystr -> option fl) (lower_ext : N -> N)
+         (r : rendering), (forall l, Permutation (r_perm r l) l) ->
+  forall (strict : bool) (probes : list pyval) (base : pystr) (d : device_def),
+    wf_desc urljoin float_of_str lower_ext base d = true ->
+    (strict = true -> any_corrupt d = true -> any_corrupt (collapse d) = true) ->
+    c_mirrors urljoin float_of_str lower_ext strict probes base (collapse d)
+              (run_def urljoin float_of_str lower_ext r strict probes base d) = true.
+Proof. exact c_mirrors_collapsed. Qed.
+Print Assumptions C05_mirrors_collapsed.
+
+(* The same as sentences 1 / 2b without guards: creation succeeds and the graph mirrors the collapsed description,
+   for every description of the domain whose service documents are all intact (either mode) and for every
+   description of the domain in non-strict mode. *)
+Theorem C05_faithful_collapsed :
+  forall (urljoin : pystr -> pystr -> pystr) (float_of_str : pystr -> option fl) (lower_ext : N -> N)
+         (r : rendering), (forall l, Permutation (r_perm r l) l) ->
+  forall (strict : bool) (probes : list pyval) (base : pystr) (d : device_def),
+    wf_desc urljoin float_of_str lower_ext base d = true -> strict && any_corrupt d = false ->
+    exists o, run_def urljoin float_of_str lower_ext r strict probes base d = FOk o /\
+              mirror_dev urljoin float_of_str lower_ext strict probes base (collapse d) o = true.
+Proof. exact mirrors_collapsed. Qed.
+Print Assumptions C05_faithful_collapsed.
+
+(* With no hypothesis beyond the domain: clause 1 holds against the description or against its collapsed form - the
+   decision Run.report_one takes under the guards (nothing, or clause 3 `mirrors_collapsed`; never clause 1). *)
+Theorem C05_clause_mirrors_or_collapsed :
+  forall (urljoin : pystr -> pystr -> pystr) (float_of_str : pystr -> option fl) (lower_ext : N -> N)
+         (r : rendering), (forall l, Permutation (r_perm r l) l) ->
+  forall (strict : bool) (probes : list pyval) (base : pystr) (d : device_def),
+    wf_desc urljoin float_of_str lower_ext base d = true ->
+    c_mirrors urljoin float_of_str lower_ext strict probes base d
+              (run_def urljoin float_of_str lower_ext r strict probes base d) ||
+    c_mirrors urljoin float_of_str lower_ext strict probes base (collapse d)
+              (run_def urljoin float_of_str lower_ext r strict probes base d) = true.
+Proof. exact c_mirrors_or_collapsed. Qed.
+Print Assumptions C05_clause_mirrors_or_collapsed.
+
+(* collapse is a normal form: the identity outside the guards, its result is outside both guards (so it is
+   idempotent), it keeps the per-element conformance, and it only drops services (none is invented). *)
+Theorem C05_collapse_normal_form :
+  forall d : device_def,
+    (kf_dup_device_types d = false -> kf_dup_service_types d = false -> collapse d = d) /\
+    kf_dup_device_types (collapse d) = false /\ kf_dup_service_types (collapse d) = false /\
+    collapse (collapse d) = collapse d /\
+    (forall s, In s (all_services (collapse d)) -> In s (all_services d)) /\
+    (forall urljoin float_of_str lower_ext base,
+       wf_tree urljoin float_of_str lower_ext base d = true ->
+       wf_tree urljoin float_of_str lower_ext base (collapse d) = true).
+Proof. exact collapse_normal_form. Qed.
+Print Assumptions C05_collapse_normal_form.
+
 Theorem C05_clause_strict_refuses :
   forall (urljoin : pystr -> pystr -> pystr) (float_of_str : pystr -> option fl) (lower_ext : N -> N)
          (r : rendering), (forall l, Permutation (r_perm r l) l) ->
@@ -189,6 +251,41 @@ Example C05_shared_scpd_inhabited :
             (run_def urljoin0 fos0 lext0 fancy false probes0 base0 (ex_shared_with CNoTable)) = true /\
   wf_desc urljoin0 fos0 lext0 base0 ex_shared_bad = false.
 Proof. vm_compute. repeat split; try reflexivity. eexists; reflexivity. Qed.
+
+(* Non-vacuity of the collapsed theorems: the two refutation witnesses (two sibling devices of one type; two services
+   of one type) are in the domain, satisfy the strict-mode hypothesis of C05_mirrors_collapsed (nothing is corrupted),
+   are NOT their own collapsed form, fail clause 1 against themselves and pass it against their collapsed form.  And
+   the hypothesis is needed: with the document of the DROPPED service of the D33 witness lacking its state table,
+   strict creation is refused (clause 2 holds) although the collapsed description has no corrupted service, so
+   clause 1 against the collapsed form fails there; in non-strict mode it holds. *)
+Example C05_collapsed_inhabited :
+  wf_desc urljoin0 fos0 lext0 base0 w_dup_devices = true /\ any_corrupt w_dup_devices = false /\
+  collapse w_dup_devices <> w_dup_devices /\
+  length (dd_subs (collapse w_dup_devices)) = 1%nat /\
+  c_mirrors urljoin0 fos0 lext0 true probes0 base0 w_dup_devices (run_def urljoin0 fos0 lext0 plain true probes0 base0 w_dup_devices) = false /\
+  c_mirrors urljoin0 fos0 lext0 true probes0 base0 (collapse w_dup_devices) (run_def urljoin0 fos0 lext0 plain true probes0 base0 w_dup_devices) = true /\
+  wf_desc urljoin0 fos0 lext0 base0 w_dup_services = true /\ any_corrupt w_dup_services = false /\
+  collapse w_dup_services <> w_dup_services /\
+  length (dd_svcs (collapse w_dup_services)) = 1%nat /\
+  c_mirrors urljoin0 fos0 lext0 true probes0 base0 w_dup_services (run_def urljoin0 fos0 lext0 plain true probes0 base0 w_dup_services) = false /\
+  c_mirrors urljoin0 fos0 lext0 true probes0 base0 (collapse w_dup_services) (run_def urljoin0 fos0 lext0 plain true probes0 base0 w_dup_services) = true.
+Proof.
+  assert (N1 : collapse w_dup_devices <> w_dup_devices).
+  { intros E. apply (f_equal kf_dup_device_types) in E. vm_compute in E. discriminate. }
+  assert (N2 : collapse w_dup_services <> w_dup_services).
+  { intros E. apply (f_equal kf_dup_service_types) in E. vm_compute in E. discriminate. }
+  repeat split; try assumption; vm_compute; reflexivity.
+Qed.
+
+Example C05_collapsed_hypothesis_needed :
+  wf_desc urljoin0 fos0 lext0 base0 w_dropped_corrupt = true /\
+  any_corrupt w_dropped_corrupt = true /\ any_corrupt (collapse w_dropped_corrupt) = false /\
+  c_mirrors urljoin0 fos0 lext0 true probes0 base0 (collapse w_dropped_corrupt)
+            (run_def urljoin0 fos0 lext0 plain true probes0 base0 w_dropped_corrupt) = false /\
+  c_strict_refuses true w_dropped_corrupt (run_def urljoin0 fos0 lext0 plain true probes0 base0 w_dropped_corrupt) = true /\
+  c_mirrors urljoin0 fos0 lext0 false probes0 base0 (collapse w_dropped_corrupt)
+            (run_def urljoin0 fos0 lext0 plain false probes0 base0 w_dropped_corrupt) = true.
+Proof. vm_compute. repeat split; reflexivity. Qed.
 
 (* The generated type table still supports every one of the 26 data types the statement counts, so
    "state variables of every supported data type" has not silently shrunk. *)
